@@ -21,6 +21,8 @@ func checkC12(r *Report, p *Program) {
 	r12_3(r, p)
 	r12_4(r, p)
 	r12_5(r, p)
+	// a rejected hook answer leaves nothing behind (ETag cache) that would keep failing after the fault is gone
+	hookCallOrder(r, p, "R12.6")
 }
 
 func allowedFor(s engine.Sink, under map[*ssa.Function]bool, releasers map[*ssa.Function]bool) []string {
